@@ -127,6 +127,27 @@ def _eof_checks(fn: ast.FunctionDef) -> tuple[bool, bool]:
     return unc, cap
 
 
+def _breaks_on_eof(fn: ast.FunctionDef) -> bool:
+    """Inside the bounded gzip loop, after the `.decompress(inbuf, …)` statement: `if do.eof: break`."""
+    for loop in ast.walk(fn):
+        if not isinstance(loop, ast.While):
+            continue
+        seen_dec = False
+        for st in loop.body:
+            if any(isinstance(n, ast.Call) and isinstance(n.func, ast.Attribute) and n.func.attr == "decompress" for n in ast.walk(st)):
+                seen_dec = True
+            if (
+                seen_dec
+                and isinstance(st, ast.If)
+                and ast.unparse(st.test) == "do.eof"
+                and len(st.body) == 1
+                and isinstance(st.body[0], ast.Break)
+                and not st.orelse
+            ):
+                return True
+    return False
+
+
 def _identity_first(fn: ast.FunctionDef) -> bool:
     """First statement after the docstring is `if encoding is Encoding.IDENTITY: return data`."""
     body = [b for b in fn.body if not (isinstance(b, ast.Expr) and isinstance(b.value, ast.Constant))]
@@ -259,6 +280,8 @@ def gzipTailCmp : String := "{gg[1][0]}"
 /-- `if not do.eof: raise DecompressionError` on the uncapped / capped gzip path -/
 def gzipEofUncapped : Bool := {_b(eof_unc)}
 def gzipEofCapped : Bool := {_b(eof_cap)}
+/-- the bounded gzip loop leaves with `if do.eof: break` (after the chunk was accounted) -/
+def gzipBreaksOnEof : Bool := {_b(_breaks_on_eof(gfn))}
 
 /-- `decompress` / `compress` begin with `if encoding is Encoding.IDENTITY: return data` -/
 def identityFirstDecompress : Bool := {_b(_identity_first(dfn))}
